@@ -191,6 +191,12 @@ class Holder:
         m = TEMPLATE
         m["k"] = self.state
         return m
+
+
+class Shallow:
+    def __deepcopy__(self, memo):
+        import copy
+        return copy.copy(self)
 '''
 
 
@@ -212,6 +218,7 @@ def world_fixtures():
         assert "DECIMAL_0 is not 0" in txt, ("W6 named constant", txt)
         assert "Holder.items" in txt, ("S2b empty class container", txt)
         assert "module object TEMPLATE" in txt, ("S3 module object written through a local alias", txt)
+        assert "Shallow.__deepcopy__" in txt, ("W4 __deepcopy__ that deep-copies nothing", txt)
         ref = " | ".join(r.refusals)
         assert "@swallowing" in txt and "@traced" not in txt and "@traced" not in ref, ("W3 transparent vs result-replacing repository decorator", txt, ref)
 
